@@ -83,10 +83,11 @@ theorem view_hash {w1 w2 : World} (h : ViewRel w1 w2) (z : ZTable) (ev : Positio
   congrArg View.hash h.2.2.2.2
 
 /-- **The search is a function of the view of board 0** - with any table, any cancellation instant. -/
-theorem search_of_view_eq (z : ZTable) (ev : Position → Color → Int) (ex : Explore) (le : LeafEval) {w1 w2 : World}
+theorem search_of_view_eq (z : ZTable) (ev : Position → Color → Int) (ex : World → Explore) (le : LeafEval World)
+    (hex : ExRel (fun _ => ViewRel) ex ex) (hle : LeRel (fun _ => ViewRel) le le) {w1 w2 : World}
     (h : ViewRel w1 w2) (d : Nat) (a b : Score) (st : SState) :
     alphaBetaSearch (boardGame z ev) ex le w1 d a b st = alphaBetaSearch (boardGame z ev) ex le w2 d a b st :=
-  alphaBetaSearch_congr (view_sim z ev).simN (ttInv_hash (fun h => view_hash h z ev)) ex le (n := d + leafDepth le) h d
+  alphaBetaSearch_congr (view_sim z ev).simN (ttInv_hash (fun h => view_hash h z ev)) hex hle (n := d + leafDepth le) h d
     (Nat.le_refl _) a b st trivial
 
 /-- The search world built from a fork of board `b` shows the search exactly what board `b` shows. -/
